@@ -134,8 +134,10 @@ structure WF (t : Timer δ ε) : Prop where
   dead : t.stopped = true → t.pending = []
   sdead : t.stopped = true → t.alive = false
 
-theorem WF.initWith (f : δ → ε → ε) (d : δ) : WF (Timer.initWith f d : Timer δ ε) := by
-  constructor <;> simp [Timer.initWith, lookupId]
+theorem WF.initFull (f : δ → ε → ε) (hr : Nat) (d : δ) : WF (Timer.initFull f hr d : Timer δ ε) := by
+  constructor <;> simp [Timer.initFull, lookupId]
+
+theorem WF.initWith (f : δ → ε → ε) (d : δ) : WF (Timer.initWith f d : Timer δ ε) := WF.initFull f _ d
 
 theorem WF.init (d : δ) : WF (Timer.init d : Timer δ ε) := WF.initWith _ d
 
@@ -302,7 +304,9 @@ theorem WF.send {t : Timer δ ε} (h : WF t) (id : Option SendId) (tg : Str) (de
   · constructor <;> assumption
   split
   · constructor <;> assumption
-  rename_i halive hneg hint
+  split
+  · constructor <;> first | assumption | simp
+  rename_i halive hneg hint hhead
   simp only
   split
   · -- delay = 0: sent directly
@@ -618,6 +622,8 @@ theorem Frame.step (t : Timer δ ε) (op : Op δ ε) : Frame t (t.step op) := by
     · exact ⟨fun _ hd => Or.inl hd, fun _ he => Or.inl he, Nat.le_refl _, fun _ hd => hd, Nat.le_refl _⟩
     split
     · exact ⟨fun _ hd => Or.inl hd, fun _ he => Or.inl he, Nat.le_refl _, fun _ hd => hd, Nat.le_refl _⟩
+    split
+    · exact ⟨fun _ hd => Or.inl hd, fun _ he => Or.inl he, Nat.le_refl _, fun _ hd => hd, Nat.le_refl _⟩
     simp only
     split
     · refine ⟨?_, fun _ he => Or.inl he, Nat.le_succ _, fun _ hd => List.mem_append_left _ hd, Nat.le_refl _⟩
@@ -744,10 +750,12 @@ theorem keep_step {t : Timer δ ε} (h : WF t) {e : Entry ε} (he : e ∈ t.pend
     · exact he
     split
     · exact he
+    split
+    · exact he
     simp only
     split
     · exact he
-    · rename_i halive hneg hint hz
+    · rename_i halive hneg hint hhead hz
       have hin : e ∈ insertEntry (⟨t.now + d.toNat, t.nextSeq, id, tg, mk t.data⟩ : Entry ε) t.pending :=
         mem_insertEntry.2 (Or.inr he)
       cases id with
@@ -827,6 +835,8 @@ theorem step_deref (t : Timer δ ε) (op : Op δ ε) : (t.step op).deref = t.der
     · rfl
     split
     · rfl
+    split
+    · rfl
     simp only
     split
     · rfl
@@ -880,6 +890,8 @@ theorem Seen.step {t : Timer δ ε} (h : Seen t) (op : Op δ ε) : Seen (t.step 
   | send id tg d mk =>
     show Seen (t.send id tg d mk)
     unfold Timer.send
+    split
+    · exact h
     split
     · exact h
     split
